@@ -493,6 +493,7 @@ pub fn run_check(replay: Option<Value>) -> i32 {
         // two step ladders: steps dividing the span (end point only) and steps that do not divide it
         // (a shortened last step), the latter sampled through t_eval at 7 points inside the steps
         let mut errs_te = vec![];
+        let mut errs_st = vec![];
         for k in 3..=9 {
             let h = (xend - x0) / 2f64.powi(k);
             let mut c = Cfg::new(Method::RK4, x0, xend, &y0);
@@ -506,6 +507,20 @@ pub fn run_check(replay: Option<Value>) -> i32 {
                     errs.push(yl.iter().zip(&ex).fold(0.0f64, |a, (u, w)| a.max((u - w).abs())));
                 }
                 _ => errs.push(f64::NAN),
+            }
+            // span / h = 2^k + 0.005: after 2^k - 1 steps the rest is 1.005 h, inside the 1 % look-ahead, and the
+            // last step is stretched onto xend
+            let mut c3 = Cfg::new(Method::RK4, x0, xend, &y0);
+            c3.first_step = Some((xend - x0) / (2f64.powi(k) + 0.005));
+            let r3 = run(&p, &c3);
+            out.events += r3.st.n_ode;
+            match r3.sol() {
+                Some(s) if s.status == Status::Success && s.t.last().map(|t| t.to_bits()) == Some(xend.to_bits()) => {
+                    let ex = p.exact(x0, &y0, xend).unwrap();
+                    let yl = s.y.last().unwrap();
+                    errs_st.push(yl.iter().zip(&ex).fold(0.0f64, |a, (u, w)| a.max((u - w).abs())));
+                }
+                _ => errs_st.push(f64::NAN),
             }
             let mut c2 = Cfg::new(Method::RK4, x0, xend, &y0);
             c2.first_step = Some((xend - x0) / (2f64.powi(k) - 0.4));
@@ -540,6 +555,22 @@ pub fn run_check(replay: Option<Value>) -> i32 {
         }
         let desc = json!({"key": key, "problem": p.name, "direction": format!("{:?}", dir), "errors_h_halved": errs, "observed_orders": obs,
             "errors_t_eval_nondividing_steps": errs_te, "observed_orders_t_eval": obs_te});
+        let mut obs_st = vec![];
+        for i in 0..errs_st.len() - 1 {
+            if errs_st[i].is_finite() && errs_st[i + 1].is_finite() && errs_st[i + 1] > floor {
+                obs_st.push((errs_st[i] / errs_st[i + 1]).log2());
+            }
+        }
+        let tail_st: Vec<f64> = obs_st.iter().rev().take(3).copied().collect();
+        if errs_st.iter().any(|e| e.is_nan()) {
+            out.violations.push(Violation::new(&key, "rk4-stretched-last-step", format!("RK4 on {} with span/h = 2^k + 0.005: a run did not end with Success on xend (errors {:?})", p.name, errs_st), desc.clone()).with("method", "RK4"));
+        } else if tail_st.len() >= 2 {
+            out.tag("rk4-convergence-stretched-last-step");
+            let best = tail_st.iter().fold(f64::NEG_INFINITY, |a, b| a.max(*b));
+            if best < 3.6 {
+                out.violations.push(Violation::new(&key, "rk4-order-stretched-last-step", format!("RK4 on {} with span/h = 2^k + 0.005 (last step stretched onto xend): observed global orders {:?} (errors {:?})", p.name, obs_st, errs_st), desc.clone()).with("method", "RK4"));
+            }
+        }
         let tail_te: Vec<f64> = obs_te.iter().rev().take(3).copied().collect();
         if tail_te.len() >= 2 {
             out.tag("rk4-convergence-t-eval");
